@@ -80,18 +80,23 @@ impl Prop for C03Prop {
         "C03"
     }
     fn rule(&self) -> String {
-        "Cases are (evaluator, input, placeholder). Same exhaustive enumerations as C01 (piece sequences <=3 over the full vocabulary + foreign tokens, <=4/5 over class representatives, short strings over the keyword alphabet, keyword neighbourhood), near-miss mutants of well-formed trees (delete/insert/duplicate/swap/replace a token, bracket damage, truncation, trailing token, arity change) and well-formed trees. Oracle: independent stratified recogniser; Ok requires Accept or DontCare; Accept with all operations defined (complex: always; f64/number: no Lambert W; i64/decimal: reference evaluator yields a value) requires Ok. non-trivial = >=2 reference tokens; distinct by (evaluator,input,placeholder).".into()
+        "Cases are (evaluator, input, placeholder). Same exhaustive enumerations as C01 (piece sequences <=3 over the full vocabulary + foreign tokens, <=4/5 over class representatives, short strings over the keyword alphabet, keyword neighbourhood), long forms (flat chains of 2..512 operands of every operator with uniform, order-sensitive and boundary operands, 2..512 nested brackets / prefix signs / factorials / calls, juxtaposition chains, argument lists of 2..512 values), near-miss mutants of well-formed trees (delete/insert/duplicate/swap/replace a token, bracket damage, truncation, trailing token, arity change) and well-formed trees. Oracle: independent stratified recogniser; Ok requires Accept or DontCare; Accept with all operations defined (complex: always; f64/number: no Lambert W; i64/decimal: reference evaluator yields a value) requires Ok. non-trivial = >=2 reference tokens; distinct by (evaluator,input,placeholder).".into()
     }
     fn assumptions(&self) -> Vec<String> {
         vec!["DontCare inputs (literal-literal adjacency, literals the type cannot hold, deg/rad followed by ^, superscript or !) are counted and not asserted".into()]
     }
     fn subs(&self, tier: Tier) -> Vec<Sub> {
         let mut v: Vec<Sub> = c01::C01.subs(tier).into_iter().filter(|s| ["tokens3", "classreps", "chars", "keywords"].contains(&s.name)).collect();
+        v.push(Sub { name: "long", kind: SubKind::Enum { count: super::long::all(true).len() as u64 } });
         v.push(Sub { name: "mutant", kind: SubKind::Random { cases: tier.pick(600_000, 30_000_000), len: 160 } });
         v.push(Sub { name: "wellformed", kind: SubKind::Random { cases: tier.pick(400_000, 20_000_000), len: 160 } });
         v
     }
     fn gen_enum(&self, sub: &str, idx: u64, tier: Tier) -> Option<Case> {
+        if sub == "long" {
+            let (ev, s) = super::long::all(true).get(idx as usize)?.clone();
+            return Some(Case::new(ev, s, Val::default_for(ev)));
+        }
         c01::C01.gen_enum(sub, idx, tier)
     }
     fn gen(&self, sub: &str, c: &mut dyn Choices) -> Option<Case> {
